@@ -5,9 +5,9 @@ ordered table: one unfolding (`relStep_good`), then induction on the fuel (`chec
 -/
 namespace QM.Types
 
-theorem Good.of_restore {T : Table} {asm : Asm} {a b : Nat} {inner : Res} {P : Prop}
-    (h : Good T inner ((a, b) :: asm) P) (hP : P → Valid T a b) :
-    Good T (restoreOnFail Variant.current asm inner) asm (Valid T a b) := by
+theorem Good.of_restore {W : Nat → Nat → Prop} {asm : Asm} {a b : Nat} {inner : Res} {P : Prop}
+    (h : Good W inner ((a, b) :: asm) P) (hP : P → W a b) :
+    Good W (restoreOnFail Variant.current asm inner) asm (W a b) := by
   intro r asm' hr
   cases hin : inner with
   | none => simp [hin, restoreOnFail] at hr
@@ -19,7 +19,7 @@ theorem Good.of_restore {T : Table} {asm : Asm} {a b : Nat} {inner : Res} {P : P
     | true =>
       simp only [restoreOnFail, Option.some.injEq, Prod.mk.injEq] at hr
       obtain ⟨rfl, rfl⟩ := hr
-      have hv : Valid T a b := hP (h0.2 rfl)
+      have hv : W a b := hP (h0.2 rfl)
       refine ⟨fun p hp => ?_, fun _ => hv⟩
       rcases h0.1 p hp with hmem | hval
       · rcases List.mem_cons.mp hmem with rfl | hmem
@@ -33,29 +33,31 @@ theorem Good.of_restore {T : Table} {asm : Asm} {a b : Nat} {inner : Res} {P : P
       exact ⟨Post.refl _ _, fun h => by simp at h⟩
 
 section
-variable {T : Table} {μ : Nat → Nat} (hT : ChildLt T μ) {rec : Rec} {asm : Asm} {st : Stk} {a b : Nat}
-  (ha : FO T a) (hb : FO T b) (hrec : RecGood T μ rec (μ a + μ b)) (hinv : Inv T μ asm (μ a + μ b + 1))
-include hT ha hb hrec hinv
+variable {T : Table} {W : Nat → Nat → Prop} (hW : Rules T W) {μ : Nat → Nat} (hT : ChildLt T μ) {rec : Rec}
+  {asm : Asm} {st : Stk} {a b : Nat}
+  (ha : FO T a) (hb : FO T b) (hrec : RecGood T W μ rec (μ a + μ b)) (hinv : Inv W μ asm (μ a + μ b + 1))
+include hW hT ha hb hrec hinv
 
 theorem unionLeft_good {vs : List Nat} (hta : T.types[a]? = some (.union vs)) :
-    Good T (unionLeft Variant.current .all rec asm st a b vs) asm (Valid T a b) := by
+    Good W (unionLeft Variant.current .all rec asm st a b vs) asm (W a b) := by
   unfold unionLeft
-  refine Good.of_restore (P := ∀ v ∈ vs, Valid T v b) ?_ (Valid.union_left hta)
-  refine allS_good T (m := μ a + μ b) vs (fun v hv s hs => ?_) _ hinv.cons
+  obtain ⟨tb, htb, _⟩ := hb.unfold
+  refine Good.of_restore (P := ∀ v ∈ vs, W v b) ?_ (hW.union_left hta htb)
+  refine allS_good W (m := μ a + μ b) vs (fun v hv s hs => ?_) _ hinv.cons
   have hlt : μ v < μ a := hT hta ha v (by simpa [Ty.children] using hv)
   exact hrec s _ v b (ha.union hta v hv) hb (by omega) (hs.mono (by omega))
 
 theorem unionRight_good {vs : List Nat} (htb : T.types[b]? = some (.union vs)) :
-    Good T (unionRight Variant.current rec asm st a b vs) asm (Valid T a b) := by
+    Good W (unionRight Variant.current rec asm st a b vs) asm (W a b) := by
   unfold unionRight
-  refine Good.of_restore (P := ∃ v ∈ vs, Valid T a v) ?_ (Valid.union_right htb)
-  refine anyS_good T (m := μ a + μ b) vs (fun v hv s hs => ?_) _ hinv.cons
+  refine Good.of_restore (P := ∃ v ∈ vs, W a v) ?_ (hW.union_right htb)
+  refine anyS_good W (m := μ a + μ b) vs (fun v hv s hs => ?_) _ hinv.cons
   have hlt : μ v < μ b := hT htb hb v (by simpa [Ty.children] using hv)
   exact hrec s _ a v ha (hb.union htb v hv) (by omega) (hs.mono (by omega))
 
 theorem tupleTuple_good {i1 i2 : Nat} (hta : T.types[a]? = some (.tuple i1))
     (htb : T.types[b]? = some (.tuple i2)) :
-    Good T (tupleTuple Variant.current T .all rec asm st i1 i2) asm (Valid T a b) := by
+    Good W (tupleTuple Variant.current T .all rec asm st i1 i2) asm (W a b) := by
   obtain ⟨info1, h1, hf1⟩ := ha.tuple hta
   obtain ⟨info2, h2, hf2⟩ := hb.tuple htb
   unfold tupleTuple
@@ -63,21 +65,14 @@ theorem tupleTuple_good {i1 i2 : Nat} (hta : T.types[a]? = some (.tuple i1))
   · rename_i heq
     obtain ⟨heq, _⟩ := heq
     subst heq
-    refine Good.const_true ?_
-    rw [h1] at h2; cases h2
-    intro st1 st2 v hv
-    obtain ⟨name, fs, rfl, hn, hf⟩ := (inh_tuple hta h1).mp hv
-    exact (inh_tuple htb h1).mpr ⟨name, fs, rfl, hn,
-      FieldsRel.imp (fun c hc v hP => by
-        obtain ⟨f, hf, rfl⟩ := List.mem_map.mp hc
-        exact (hf1 f hf).stack_irrel hP) hf⟩
+    exact Good.const_true (hW.tuple_same ha hta htb)
   · simp only [h1, h2]
     split
     · rename_i hnl
       unfold tupleFields
-      refine (allS_good T (m := μ a + μ b) (R := fun p => p.1.1 = p.2.1 ∧ Valid T p.1.2 p.2.2) _
+      refine (allS_good W (m := μ a + μ b) (R := fun p => p.1.1 = p.2.1 ∧ W p.1.2 p.2.2) _
         (fun p hp s hs => ?_) asm (hinv.mono (by omega))).imp
-        (fun hz => Valid.tuple_tuple hta htb h1 h2 hnl.1 hnl.2 hz)
+        (fun hz => hW.tuple_tuple hta htb h1 h2 hnl.1 hnl.2 hz)
       have hp1 : p.1 ∈ info1.fields := (List.of_mem_zip hp).1
       have hp2 : p.2 ∈ info2.fields := (List.of_mem_zip hp).2
       have hlt1 : μ p.1.2 < μ a := hT hta ha _ (by
@@ -93,7 +88,7 @@ theorem tupleTuple_good {i1 i2 : Nat} (hta : T.types[a]? = some (.tuple i1))
 
 theorem tuplePart_good {c : Nat} {pn : Option Name} {pfs : List (Name × Nat)}
     (hta : T.types[a]? = some (.tuple c)) (htb : T.types[b]? = some (.part pn pfs)) :
-    Good T (tuplePart T rec asm st c pn pfs) asm (Valid T a b) := by
+    Good W (tuplePart T rec asm st c pn pfs) asm (W a b) := by
   obtain ⟨ci, hc, hfc⟩ := ha.tuple hta
   have hfp := hb.part htb
   unfold tuplePart
@@ -102,11 +97,11 @@ theorem tuplePart_good {c : Nat} {pn : Option Name} {pfs : List (Name × Nat)}
   · exact Good.const_false
   · rename_i hname
     unfold tuplePartFields
-    refine (allS_good T (m := μ a + μ b)
-      (R := fun pf => ∃ cf ∈ ci.fields, cf.1 = some pf.1 ∧ Valid T cf.2 pf.2) pfs
+    refine (allS_good W (m := μ a + μ b)
+      (R := fun pf => ∃ cf ∈ ci.fields, cf.1 = some pf.1 ∧ W cf.2 pf.2) pfs
       (fun pf hpf s hs => ?_) asm (hinv.mono (by omega))).imp
-      (fun hf => Valid.tuple_part hta htb hc hname hf)
-    refine (anyS_good T (m := μ a + μ b) (R := fun cf => cf.1 = some pf.1 ∧ Valid T cf.2 pf.2) ci.fields
+      (fun hf => hW.tuple_part hta htb hc hname hf)
+    refine (anyS_good W (m := μ a + μ b) (R := fun cf => cf.1 = some pf.1 ∧ W cf.2 pf.2) ci.fields
       (fun cf hcf s' hs' => ?_) s hs).imp id
     have hlt1 : μ cf.2 < μ a := hT hta ha _ (by
       simp only [Ty.children, Table.fieldTypes, hc, List.mem_map]; exact ⟨cf, hcf, rfl⟩)
@@ -120,7 +115,7 @@ theorem tuplePart_good {c : Nat} {pn : Option Name} {pfs : List (Name × Nat)}
 
 theorem partPart_good {n1 n2 : Option Name} {fs1 fs2 : List (Name × Nat)}
     (hta : T.types[a]? = some (.part n1 fs1)) (htb : T.types[b]? = some (.part n2 fs2)) :
-    Good T (partPart Variant.current .all rec asm st n1 fs1 n2 fs2) asm (Valid T a b) := by
+    Good W (partPart Variant.current .all rec asm st n1 fs1 n2 fs2) asm (W a b) := by
   have hf1 := ha.part hta
   have hf2 := hb.part htb
   unfold partPart
@@ -129,10 +124,10 @@ theorem partPart_good {n1 n2 : Option Name} {fs1 fs2 : List (Name × Nat)}
   · rename_i hname
     unfold partPartFields
     simp only [Variant.current, Bool.false_eq_true, if_false]
-    refine (allS_good T (m := μ a + μ b)
-      (R := fun f2 => ∃ f1 ∈ fs1, f1.1 = f2.1 ∧ Valid T f1.2 f2.2) fs2
+    refine (allS_good W (m := μ a + μ b)
+      (R := fun f2 => ∃ f1, fs1.find? (fun f1 => f1.1 == f2.1) = some f1 ∧ W f1.2 f2.2) fs2
       (fun f2 hf2mem s hs => ?_) asm (hinv.mono (by omega))).imp
-      (fun hf => Valid.part_part hta htb (by simpa using hname) hf)
+      (fun hf => hW.part_part hta htb (by simpa using hname) hf)
     split
     · rename_i f1 hfind
       have hmem : f1 ∈ fs1 := List.mem_of_find?_eq_some hfind
@@ -144,7 +139,7 @@ theorem partPart_good {n1 n2 : Option Name} {fs1 fs2 : List (Name × Nat)}
       have hlt2 : μ f2.2 < μ b := hT htb hb _ (by
         simp only [Ty.children, List.mem_map]; exact ⟨f2, hf2mem, rfl⟩)
       exact (hrec s st _ _ (hf1 _ hmem) (hf2 _ hf2mem) (by omega) (hs.mono (by omega))).imp
-        (fun hv => ⟨f1, hmem, hl, hv⟩)
+        (fun hv => ⟨f1, hfind, hv⟩)
     · exact Good.const_false
 
 end
@@ -153,7 +148,7 @@ end QM.Types
 
 namespace QM.Types
 
-theorem Valid.of_same_ty {T : Table} {a b : Nat} {ty : Ty} (ha : FO T a)
+theorem Valid.of_same_ty {T : Table} {a b : Nat} {ty : Ty}
     (hta : T.types[a]? = some ty) (htb : T.types[b]? = some ty)
     (hatom : ty = .integer ∨ ty = .binary ∨ ty = .reference ∨ ∃ r, ty = .resource r) : Valid T a b := by
   intro st st' v hv
@@ -163,20 +158,45 @@ theorem Valid.of_same_ty {T : Table} {a b : Nat} {ty : Ty} (ha : FO T a)
   · exact (inh_reference htb).mpr ((inh_reference hta).mp hv)
   · exact (inh_resource htb).mpr ((inh_resource hta).mp hv)
 
+/-- semantic containment is closed under the rules -/
+theorem Rules.valid (T : Table) : Rules T (Valid T) where
+  refl_fo := Valid.refl_fo
+  never_left := fun h _ => Valid.never_left h
+  union_left := fun h _ hv => Valid.union_left h hv
+  union_right := Valid.union_right
+  tuple_same := by
+    intro a b i ha hta htb
+    obtain ⟨info1, h1, hf1⟩ := ha.tuple hta
+    intro st1 st2 v hv
+    obtain ⟨name, fs, rfl, hn, hf⟩ := (inh_tuple hta h1).mp hv
+    exact (inh_tuple htb h1).mpr ⟨name, fs, rfl, hn,
+      FieldsRel.imp (fun c hc v hP => by
+        obtain ⟨f, hf, rfl⟩ := List.mem_map.mp hc
+        exact (hf1 f hf).stack_irrel hP) hf⟩
+  tuple_tuple := Valid.tuple_tuple
+  tuple_part := Valid.tuple_part
+  part_part := by
+    intro a b n1 n2 fs1 fs2 hta htb hname hf
+    refine Valid.part_part hta htb hname (fun f2 hf2 => ?_)
+    obtain ⟨f1, hfind, hv⟩ := hf f2 hf2
+    exact ⟨f1, List.mem_of_find?_eq_some hfind, by simpa using List.find?_some hfind, hv⟩
+  same_atom := Valid.of_same_ty
+
 /-- one unfolding of the relation is good on a first-order pair if the recursive call is good on
 all first-order pairs with a smaller id sum -/
-theorem relStep_good {T : Table} {μ : Nat → Nat} (hT : ChildLt T μ) {rec : Rec} {asm : Asm}
+theorem relStep_good {T : Table} {W : Nat → Nat → Prop} (hW : Rules T W) {μ : Nat → Nat} (hT : ChildLt T μ)
+    {rec : Rec} {asm : Asm}
     {st : Stk} {a b : Nat}
     {ta tb : Ty} (ha : FO T a) (hb : FO T b) (hta : T.types[a]? = some ta)
-    (htb : T.types[b]? = some tb) (hrec : RecGood T μ rec (μ a + μ b))
-    (hinv : Inv T μ asm (μ a + μ b + 1)) :
-    Good T (relStep Variant.current T .all rec asm st a b ta tb) asm (Valid T a b) := by
+    (htb : T.types[b]? = some tb) (hrec : RecGood T W μ rec (μ a + μ b))
+    (hinv : Inv W μ asm (μ a + μ b + 1)) :
+    Good W (relStep Variant.current T .all rec asm st a b ta tb) asm (W a b) := by
   obtain ⟨ta', hta', hfa, _, _⟩ := ha.unfold
   obtain ⟨tb', htb', hfb, _, _⟩ := hb.unfold
   rw [hta] at hta'; cases hta'
   rw [htb] at htb'; cases htb'
   have other : ∀ {ta : Ty}, T.types[a]? = some ta → (∀ vs, ta ≠ .union vs) → ta.isFO = true →
-      Good T (relStep Variant.current T .all rec asm st a b ta tb) asm (Valid T a b) := by
+      Good W (relStep Variant.current T .all rec asm st a b ta tb) asm (W a b) := by
     intro ta hta hnu hfa
     cases ta <;> simp only [Ty.isFO, Bool.false_eq_true] at hfa <;>
       cases tb <;> simp only [Ty.isFO, Bool.false_eq_true] at hfb
@@ -184,12 +204,12 @@ theorem relStep_good {T : Table} {μ : Nat → Nat} (hT : ChildLt T μ) {rec : R
       | exact absurd rfl (hnu _)
       | (simp only [relStep]; exact Good.const_false)
       | (simp only [relStep, partTuple]; exact Good.const_false)
-      | (simp only [relStep]; exact unionRight_good hT ha hb hrec hinv htb)
-      | (simp only [relStep]; exact tupleTuple_good hT ha hb hrec hinv hta htb)
-      | (simp only [relStep]; exact tuplePart_good hT ha hb hrec hinv hta htb)
-      | (simp only [relStep]; exact partPart_good hT ha hb hrec hinv hta htb)
+      | (simp only [relStep]; exact unionRight_good hW hT ha hb hrec hinv htb)
+      | (simp only [relStep]; exact tupleTuple_good hW hT ha hb hrec hinv hta htb)
+      | (simp only [relStep]; exact tuplePart_good hW hT ha hb hrec hinv hta htb)
+      | (simp only [relStep]; exact partPart_good hW hT ha hb hrec hinv hta htb)
       | (simp only [relStep]
-         exact Good.const_true (Valid.of_same_ty ha hta htb (by simp)))
+         exact Good.const_true (hW.same_atom hta htb (by simp)))
       | (simp only [relStep]
          intro r asm' h
          simp only [Option.some.injEq, Prod.mk.injEq] at h
@@ -197,14 +217,14 @@ theorem relStep_good {T : Table} {μ : Nat → Nat} (hT : ChildLt T μ) {rec : R
          refine ⟨Post.refl _ _, fun hr => ?_⟩
          simp only [decide_eq_true_eq] at hr
          subst hr
-         exact Valid.of_same_ty ha hta htb (by simp))
+         exact hW.same_atom hta htb (by simp))
   by_cases hu : ∃ vs, ta = .union vs
   · obtain ⟨vs, rfl⟩ := hu
     cases vs with
-    | nil => simp only [relStep]; exact Good.const_true (Valid.never_left hta)
+    | nil => simp only [relStep]; exact Good.const_true (hW.never_left hta htb)
     | cons x xs =>
       cases tb <;> simp only [Ty.isFO, Bool.false_eq_true] at hfb
-      all_goals (simp only [relStep]; exact unionLeft_good hT ha hb hrec hinv hta)
+      all_goals (simp only [relStep]; exact unionLeft_good hW hT ha hb hrec hinv hta)
   · exact other hta (fun vs h => hu ⟨vs, h⟩) hfa
 
 /-- on an ordered table the ids themselves are a measure -/
@@ -213,8 +233,8 @@ theorem ChildLt.of_ordered {T : Table} (hT : Ordered T) : ChildLt T id :=
 
 /-- `checkRel` in mode ALL is good on every first-order pair of an ordered table, whatever valid
 or pending assumptions it starts from. -/
-theorem checkRel_good {T : Table} {μ : Nat → Nat} (hT : ChildLt T μ) :
-    ∀ (n bound : Nat), RecGood T μ (checkRel T .all n) bound := by
+theorem checkRel_good {T : Table} {W : Nat → Nat → Prop} (hW : Rules T W) {μ : Nat → Nat} (hT : ChildLt T μ) :
+    ∀ (n bound : Nat), RecGood T W μ (checkRel T .all n) bound := by
   intro n
   induction n with
   | zero =>
@@ -227,7 +247,7 @@ theorem checkRel_good {T : Table} {μ : Nat → Nat} (hT : ChildLt T μ) :
     · rename_i heq
       obtain ⟨heq, _⟩ := heq
       subst heq
-      exact Good.const_true (Valid.refl_fo hx)
+      exact Good.const_true (hW.refl_fo hx)
     · split
       · rename_i hc
         have hmem : (x, y) ∈ asm := by simpa using hc
@@ -236,7 +256,7 @@ theorem checkRel_good {T : Table} {μ : Nat → Nat} (hT : ChildLt T μ) :
         · simp at hle; omega
       · split
         · rename_i ta tb hta htb
-          exact relStep_good hT hx hy hta htb (ih (μ x + μ y)) hinv
+          exact relStep_good hW hT hx hy hta htb (ih (μ x + μ y)) hinv
         · exact Good.const_false
 
 end QM.Types
